@@ -734,10 +734,11 @@ class TagAttributes(MutableMapping):
 
         if isinstance(other, TagAttributes):
             # TODO optimize with native data model
+            other_names = set(other)
             for key, attribute in self.items():
                 assert isinstance(attribute, Attribute)
-                other_value = other.get((attribute.namespace, attribute.local_name))
-                if (other_value is None) or (attribute != other_value):
+                # a lookup would also find an attribute under another spelling of a name
+                if (key not in other_names) or (attribute != other[key]):
                     return False
         else:
             for key, value in other.items():
